@@ -5,7 +5,7 @@ values yielded before an exception are observed too) and on the Lean model + spe
 Exact regime: dyadic rationals (Python floats are exact there) or Fractions where the code
 keeps them exact; tolerance only where the code itself injects inexact floats.
 """
-import itertools, math
+import itertools, json, math
 from fractions import Fraction
 import common
 from common import enc, dec, err_kind
@@ -96,7 +96,7 @@ def mc_build(a):
 
 def gen_mc(rng, tier, scale):
     cases = []
-    per = (45 if tier == "quick" else 900) * scale
+    per = (220 if tier == "quick" else 2500) * scale
     for combo in itertools.product([False, True], repeat=3):     # start, modulo, step iterable?
         for _ in range(per):
             n = rng.choice([1, 2, 3, 5, 8, 13, 21, 34])
@@ -355,7 +355,7 @@ FUEL = 400
 # --- line / fades -------------------------------------------------------------------------------
 def gen_line(rng, tier, scale):
     cases = []
-    k = (260 if tier == "quick" else 6000) * scale
+    k = (1000 if tier == "quick" else 12000) * scale
     for _ in range(k):
         dur = gen_dur(rng)
         fin = rng.random() < 0.4
@@ -461,7 +461,7 @@ def neigh_line(c):
 # --- ones / zeros / impulse -----------------------------------------------------------------------
 def gen_const(rng, tier, scale):
     cases = []
-    k = (120 if tier == "quick" else 2500) * scale
+    k = (500 if tier == "quick" else 6000) * scale
     for _ in range(k):
         what = rng.choice(["ones", "zeros", "zeroes", "impulse"])
         r = rng.random()
@@ -557,7 +557,7 @@ def classify_const(c, io, drv):
 # --- white_noise / gauss_noise: duration and range only ---------------------------------------------
 def gen_noise(rng, tier, scale):
     cases = []
-    k = (80 if tier == "quick" else 1500) * scale
+    k = (250 if tier == "quick" else 3000) * scale
     for _ in range(k):
         what = rng.choice(["white_noise", "gauss_noise"])
         r = rng.random()
@@ -634,7 +634,7 @@ def gen_time(rng, zero_rate=0.04):
 
 def gen_adsr(rng, tier, scale):
     cases = []
-    k = (200 if tier == "quick" else 5000) * scale
+    k = (800 if tier == "quick" else 10000) * scale
     for _ in range(k):
         a, d, r = gen_time(rng), gen_time(rng), gen_time(rng)
         s = dyadic(rng) / 8 if rng.random() < 0.8 else F(rng.randint(0, 9), 10)
@@ -774,7 +774,7 @@ def float_arg(rng, lo, hi, n, p_stream=0.4, kinds=("list", "iter", "Stream", "tu
 
 def gen_table(rng, tier, scale):
     cases = []
-    k = (220 if tier == "quick" else 5000) * scale
+    k = (700 if tier == "quick" else 9000) * scale
     for _ in range(k):
         L = rng.choice([1, 2, 3, 4, 5, 7, 8, 16, rng.randint(1, 64)])
         tbl = [dyadic(rng) for _ in range(L)]
@@ -942,7 +942,7 @@ def neigh_table(c):
 # --- sinusoid -----------------------------------------------------------------------------------
 def gen_sin(rng, tier, scale):
     cases = []
-    k = (120 if tier == "quick" else 3000) * scale
+    k = (300 if tier == "quick" else 4000) * scale
     for _ in range(k):
         n = rng.choice([1, 5, 20, 60])
         r = rng.random()
@@ -1025,7 +1025,7 @@ def exact_freq_for(delay):
 
 def gen_ks(rng, tier, scale):
     cases = []
-    k = (100 if tier == "quick" else 2500) * scale
+    k = (300 if tier == "quick" else 4000) * scale
     for _ in range(k):
         n = rng.choice([1, 5, 12, 30, 50])
         if rng.random() < 0.6:
@@ -1115,7 +1115,7 @@ def shrink_ks(c):
 # ----------------------------------------------------------------------------------------------
 def gen_res(rng, tier, scale):
     cases = []
-    k = (320 if tier == "quick" else 7000) * scale
+    k = (1200 if tier == "quick" else 15000) * scale
     for _ in range(k):
         r = rng.random()
         order = rng.choice([1, 1, 2, 3, 3, 4, 5]) if r > 0.04 else 0
@@ -1346,9 +1346,68 @@ def tally(eng, c, io):
         f(eng, c, io)
 
 
+_DRV = None
+
+
+def _signature(cases):
+    """(kinds, signature) of each case, evaluated here (impl + driver)"""
+    global _DRV
+    if _DRV is None:
+        _DRV = common.Driver()
+    obs = []
+    for c in cases:
+        try:
+            obs.append(impl(c))
+        except Exception as e:
+            obs.append({"err": "UNMAPPED:" + err_kind(e), "out": [], "end": "UNMAPPED"})
+    outs = _DRV.batch([dict(request(c), id=ID) for c in cases])
+    res = []
+    for c, io, do in zip(cases, obs, outs):
+        if "fail" in do:
+            res.append((set(), None))
+            continue
+        payload = do.get("ok", do)
+        kinds = {k for k, _ in compare(c, io, payload)}
+        res.append((kinds, classify(c, io, payload) if kinds else None))
+    return res
+
+
+_MINIMAL = set()
+_KNOWN = None
+
+
 def shrink(c):
+    """Shrinks here (one driver call per round) and hands the engine the final case only.
+    Candidates must keep the *signature* of the failing case: the engine treats a shrunk case
+    whose signature is a known finding as that finding, so shrinking must not wander from an
+    unknown failure into the neighbourhood of a known one (e.g. dur -> 0, or n -> past the end
+    of a resampled input).  Known findings are not shrunk (their witnesses are recorded)."""
+    global _KNOWN
     f = ENTRIES[c["entry"]].get("shrink")
-    return f(c) if f else ()
+    key0 = json.dumps(c, sort_keys=True)
+    if not f or key0 in _MINIMAL:
+        return []
+    if _KNOWN is None:
+        _KNOWN = {e["signature"] for e in common.load_known(ID)}
+    (kinds0, sig0), = _signature([c])
+    if sig0 is None or sig0 in _KNOWN:
+        _MINIMAL.add(key0)
+        return []
+    cur = c
+    for _ in range(40):
+        cands = list(f(cur))[:200]
+        if not cands:
+            break
+        sigs = _signature(cands)
+        ok = [x for x, (k, sg) in zip(cands, sigs) if sg == sig0 and (k & kinds0)]
+        if not ok:
+            break
+        best = min(ok, key=lambda x: len(json.dumps(x)))
+        if len(json.dumps(best)) >= len(json.dumps(cur)):
+            break
+        cur = best
+    _MINIMAL.add(json.dumps(cur, sort_keys=True))
+    return [] if cur is c else [cur]
 
 
 def neighbours(c):
